@@ -1,14 +1,16 @@
 """Per-property manifest texts (edited by hand; tools/gen_manifest.py turns them into MANIFEST.json)."""
 PROOF = 'contract-based deductive verification with CBMC'
 CHECKS = {
- 'C08_DISABLED': {
+ 'C08': {
   'text': 'Every mem*/str* function of the bundled libc is verified against its ISO C / POSIX definition for every '
           'content, every length and every overlap: inputs are symbolic exact-size objects, loops are closed by '
           'injected inductive loop invariants (no unwinding bound), the destination/result clauses are stated through '
           'an arbitrary ghost index. A discharged obligation set is a proof for all inputs, which sampling cannot give.',
   'ref': 'C08', 'technique': 'CBMC function + loop contracts on the real libc shim sources (ghost-index postconditions)',
-  'note': 'Trusted: cbmc 6.11 and its memory model (x86-64 LP64, flat byte-addressed objects up to 2^40 bytes), the '
-          'injector, the ISO transcriptions in the harnesses. Callees are used through their contracts.'},
+  'note': 'Bounded stand-ins (labelled, not counted as proved): the word-copy path of memcpy (the inductive step of the 4x-unrolled word loop does not finish on any '
+          'back end) and strncat. Trusted: cbmc 6.11 and its memory model (x86-64 LP64, flat byte-addressed objects), the injector, the ISO transcriptions in the '
+          'harnesses / contracts/c08_string.h. Callees are used through their contracts, which are the clauses proved for them. memmove relies on the bundled memcpy '
+          'copying forward (proved) and on address comparison across objects following the flat model.'},
 }
 
 CHECKS.update({
@@ -89,7 +91,6 @@ CHECKS.update({
 })
 WIP = 'no proof unit built yet in this session (work in progress; see DESIGN.md for the planned contracts)'
 NOT_APPLICABLE = {
- 'C08': WIP,
  'C02': WIP, 'C06': WIP, 'C07': WIP, 'C10': WIP, 'C11': WIP,
  'C12': WIP, 'C15': WIP, 'C19': WIP,
  'C09': 'quantifies over a family of C++ types assembled by template metaprogramming (partial specialisations, SFINAE, '
